@@ -248,7 +248,12 @@ def coefficients(ctx):
     prop = sp.Symbol('prop')
     env = {volname: V, 'sfield.smu0': smu0, 'sfield.sval': sval,
            'sp.constants.epsilon_0': eps0, 'model.epsilon_r': epsr,
-           'model.mu_r': mur, 'prop': prop}
+           'model.mu_r': mur, 'prop': prop,
+           # other attributes of the source field are opaque symbols: an eta
+           # built from them (|f| instead of s) is reported as a wrong
+           # formula, not as an unsupported expression
+           'sfield.frequency': sp.Symbol('abs_frequency', positive=True),
+           'sfield._frequency': sp.Symbol('signed_frequency', real=True)}
     lf = Lifter(env, {'model.map.backward': lambda x: cond
                       if x == prop else sp.Function('backward')(x)},
                 mm.rel, strict=True)
@@ -385,6 +390,28 @@ def coefficients(ctx):
 
     # cell volumes: V[i,j,k] = hx[i] hy[j] hz[k] after C-ravel + F-reshape
     me = ctx.repo.mod('emg3d/meshes.py')
+    # the widths the volumes (and the kernels) work with are float64 arrays
+    # of the mesh's own, whatever array type the caller handed in
+    binit = me.method('BaseMesh', '__init__')
+    hpar = au.params(binit)[1]
+    hs = [n for n in ast.walk(binit) if isinstance(n, ast.Assign) and
+          ast.unparse(n.targets[0]) == 'self.h']
+    ctx.anchor(len(hs) == 1, 'self.h = ... in BaseMesh.__init__')
+    elts = hs[0].value.elts if isinstance(hs[0].value, (ast.List, ast.Tuple)) \
+        else []
+    okh = len(elts) == 3 and all(
+        isinstance(e, ast.Call) and ast.unparse(e.func) in (
+            'np.array', 'np.asarray', 'np.ascontiguousarray') and
+        ast.unparse(e.args[0]) == f'{hpar}[{a}]' and any(
+            k.arg == 'dtype' and ast.unparse(k.value) in (
+                'float', 'np.float64', "'float64'") for k in e.keywords)
+        for a, e in enumerate(elts))
+    ctx.check('C02.O4.vol', 'BaseMesh stores the widths as float64 arrays',
+              okh, 'the widths are not stored as float64 arrays of h[0], '
+              'h[1], h[2] (float32 / float16 widths would be kept): cell '
+              'volumes, eta and zeta are then computed in single precision '
+              'and the operator is not the finite-integration operator of '
+              'the given widths to rounding', ctx.where(me, hs[0]))
     cv = me.method('BaseMesh', 'cell_volumes')
     prod = [n for n in ast.walk(cv) if isinstance(n, ast.Assign)
             and ast.unparse(n.targets[0]) == 'self._cell_volumes']
